@@ -1,6 +1,6 @@
 (* Properties/C13.v — One exact rule maps GraphQL type modifiers to Option / Vec nesting.
    Only theorem statements closed by `exact`, with their assumptions printed. *)
-From GC Require Import Base Rust TypeExpr TypeExprProofs.
+From GC Require Import Base Rust TypeExpr TypeExprProofs Schema Query Codegen RespProofs PositionProofs.
 From GC.Gen Require Import Keywords.
 
 (* (1) SDL path: for every type expression the grammar can produce, of any depth, the
@@ -57,3 +57,31 @@ Print Assumptions C13_rule_list.
 Print Assumptions C13_rule_list_nonnull.
 Print Assumptions C13_example.
 Print Assumptions C13_builtin_aliases.
+
+(* (5) the rule at the positions of the generator model that are not a plain response field:
+   every member of `Variables` (a DEFAULT VALUE does not enter: `vd_has_default` is not looked at),
+   and the payload of an @oneOf variant (the member's type with one `!` put in front), boxed or not *)
+Theorem C13_variables : forall o op, ro_vars op <> [] ->
+  forallb (fun v => wf_gtype (vd_type v)) (ro_vars op) = true ->
+  match variables_item o op with
+  | IStruct _ _ _ fs =>
+      Forall2 (fun v f => f_ty f = spec_rust (RespProofs.rename (vd_type v) (kw (norm_field_type o (gname (vd_type v))))))
+              (ro_vars op) fs
+  | _ => False
+  end.
+Proof. exact variables_types. Qed.
+
+Theorem C13_default_value_is_irrelevant : forall o op op',
+  ro_name op = ro_name op' ->
+  map (fun v => (vd_name v, vd_type v)) (ro_vars op) = map (fun v => (vd_name v, vd_type v)) (ro_vars op') ->
+  variables_item o op = variables_item o op'.
+Proof. exact default_value_is_irrelevant. Qed.
+
+Theorem C13_oneof_member : forall s o ty, wf_gtype (GNonNull ty) = true ->
+  let t0 := spec_rust (RespProofs.rename (GNonNull ty) (norm_field_type o (gname ty))) in
+  input_field_type s o ty true = t0 \/ input_field_type s o ty true = RBox t0.
+Proof. exact oneof_member_type. Qed.
+
+Print Assumptions C13_variables.
+Print Assumptions C13_default_value_is_irrelevant.
+Print Assumptions C13_oneof_member.
